@@ -361,6 +361,7 @@ def post_roi_from_points(args, kw, res, exc, snap):
     p.update(dict(zip(names, args)))
     p.update(kw)
     xy, padding, align = np.asarray(p["xy"], dtype="float64"), p["padding"], p["align"]
+    padding, align = int(padding), (None if align is None else int(align))  # the model computes in unbounded integers whatever type the caller used
     from odc.geo import shape_
 
     ny, nx = shape_(p["shape"])
@@ -623,6 +624,14 @@ def drive_points(mon: Monitor, rng: random.Random, count: int) -> None:
             nx = big + 2000
         if int(nprng.integers(0, 4)) == 0:
             ny, nx = np.int64(ny), np.int32(nx)
+        if int(nprng.integers(0, 3)) == 0:
+            # padding / alignment as numpy scalars of a narrow type (values read from an array or a config table)
+            tnp = [np.uint8, np.uint16, np.int16, np.uint32, np.int64][int(nprng.integers(0, 5))]
+            if align is not None:
+                align = tnp(align)
+            if int(nprng.integers(0, 2)) == 0:
+                pad = tnp(pad)
+            mon.obs["numpy_scalar_padding_or_alignment"] += 1
         try:
             R.roi_from_points(xy, (ny, nx), pad, align)
         except Exception:
